@@ -377,7 +377,7 @@ def build(seed, tier, focus='all'):
          max_items=2, max_attrs=2, magic_ident=True)
 
     # --- seeded random declarations over the whole option product --------------------------------
-    nrand = 12 if tier == "quick" else 150
+    nrand = 12 if tier == "quick" else 80
     for _ in range(nrand):
         nf = rng.randint(1, 3)
         fields = []
